@@ -143,8 +143,8 @@ def _loop_sites(body):
     """Yield (ordinal, insert_position) for each loop in token order.
 
     for/while: the contract goes right after the header's closing parenthesis.
-    do-while : after the closing parenthesis of the trailing while(...) (that while is not counted
-               as a loop of its own).
+    do-while : right after the 'do' keyword (CBMC's grammar; the invariant is evaluated at the top of the body); the
+               trailing while(...) is not counted as a loop of its own.
     """
     sites = []
     skip_while_at = set()
@@ -179,8 +179,8 @@ def _loop_sites(body):
             j = m2.end()
             while masked[j].isspace():
                 j += 1
-            e2 = _match(masked, j, "(", ")")
-            sites.append(e2 + 1)
+            _match(masked, j, "(", ")")
+            sites.append(m.end())      # CBMC wants a do-while's contract right after the 'do' keyword
     return sites
 
 
